@@ -141,6 +141,9 @@ func runTree(tree ast.Stmt, preset int, timeout time.Duration) (o obs) {
 type Case struct {
 	Prog    []*prog.N `json:"prog"`
 	Presets []int     `json:"presets"` // preset of run 1..k on the shared tree
+	// ConcFirst: the concurrent runs of the shared tree come BEFORE any other execution of
+	// this source in the process (process-wide caches are then filled concurrently)
+	ConcFirst bool `json:"conc_first,omitempty"`
 }
 
 var profile = prog.Profile{Scopes: true, Control: true, Errors: true, IncDec: true, MaxDepth: 4, MaxStmts: 4}
@@ -153,7 +156,7 @@ func gen(t *rapid.T) Case {
 		ps[i] = (i + rapid.IntRange(0, 1).Draw(t, "preset")) % 2
 	}
 	ps[1] = 1 - ps[0] // at least two presets
-	return Case{Prog: p, Presets: ps}
+	return Case{Prog: p, Presets: ps, ConcFirst: rapid.IntRange(0, 2).Draw(t, "concfirst") == 0}
 }
 
 func features(stmts []*prog.N) (calls, incs, deferOrAnon int) {
@@ -191,6 +194,24 @@ func oracle(c Case, o *h.Obs) *h.Fail {
 	}
 	d0 := dump.Dump(tree, dump.Opts{Positions: true})
 	const to = 5 * time.Second
+	const G = 8
+	var early []obs
+	if c.ConcFirst {
+		o.Class("concurrent_runs_before_any_solo_run")
+		early = make([]obs, G)
+		var wg sync.WaitGroup
+		for g := 0; g < G; g++ {
+			wg.Add(1)
+			go func(g int) {
+				defer wg.Done()
+				early[g] = runTree(tree, g%2, to)
+			}(g)
+		}
+		wg.Wait()
+		if d := dump.Dump(tree, dump.Opts{Positions: true}); d != d0 {
+			return h.Failf("C14|tree-modified|concurrent", "the parsed tree changed during concurrent runs\nbefore: %s\nafter:  %s\nsource:\n%s", d0, d, src)
+		}
+	}
 	solo := map[int]obs{}
 	for _, ps := range []int{0, 1} {
 		fresh, perr := parser.ParseSrc(src)
@@ -211,6 +232,11 @@ func oracle(c Case, o *h.Obs) *h.Fail {
 	if solo[0] != solo[1] {
 		o.Class("presets_give_different_results")
 	}
+	for g := range early {
+		if early[g] != solo[g%2] {
+			return h.Failf("C14|reused-tree-differs|concurrent", "concurrent run %d of the shared tree (preset %d, before any solo run) differs from the solo result\nconcurrent: %v\nsolo:       %v\nsource:\n%s", g, g%2, early[g], solo[g%2], src)
+		}
+	}
 	// sequential reuse of the one tree
 	for i, ps := range c.Presets {
 		got := runTree(tree, ps, to)
@@ -222,7 +248,6 @@ func oracle(c Case, o *h.Obs) *h.Fail {
 		}
 	}
 	// concurrent reuse on separate environments
-	const G = 8
 	res := make([]obs, G)
 	var wg sync.WaitGroup
 	for g := 0; g < G; g++ {
@@ -349,6 +374,7 @@ func oracleImport(c ImportCase, o *h.Obs) *h.Fail {
 		rebind = fmt.Sprintf("func hijack(m) { m.%s = m.%s }\nhijack(import(%q))\n", c.Sym, c.Other, c.Pkg)
 	}
 	a, b := env.NewEnv(), env.NewEnv()
+	a.Define("leak", int64(123))
 	if _, err := vm.Execute(a, nil, rebind); err != nil {
 		o.Excluded = "rebinding failed: " + err.Error()
 		return nil
@@ -369,6 +395,10 @@ func oracleImport(c ImportCase, o *h.Obs) *h.Fail {
 	}
 	if _, ok := env.Packages[c.Pkg]["extra"]; ok {
 		return h.Failf("C14|package-table-modified|added", "a script added a symbol to env.Packages[%q]", c.Pkg)
+	}
+	// nothing of environment A is reachable through B's copy of the package
+	if v, err := vm.Execute(b, nil, fmt.Sprintf("w = import(%q)\nw.leak", c.Pkg)); err == nil {
+		return h.Failf("C14|environments-share-bindings|through-imported-package", "environment B reads environment A's binding `leak` through its imported package value: got %v", v)
 	}
 	// bindings of A are invisible in B
 	if _, err := b.Get("s"); err == nil {
